@@ -103,6 +103,10 @@ def install_xml(it: Interp, vfs: VFS) -> None:
         return XEl(tag, {**(attrib or {}), **extra})
 
     def subelement(parent: XEl, tag: Any, attrib: Optional[dict[str, Any]] = None, **extra: Any) -> XEl:
+        if not isinstance(parent, XEl):
+            raise AbsRaise(f"TypeError: SubElement() argument 1 must be xml.etree.ElementTree.Element, not {type(parent).__name__}")
+        if attrib is not None and not isinstance(attrib, dict):
+            raise AbsRaise(f"TypeError: SubElement() argument 'attrib' must be dict, not {type(attrib).__name__}")
         el = XEl(tag, {**(attrib or {}), **extra})
         parent.children.append(el)
         return el
